@@ -471,13 +471,15 @@ impl Ctx {
             .and_then(|s| s.parse().ok())
             .unwrap_or(1.0);
         let base = if self.quick() { quick } else { thorough };
-        // the quick tier is fixed work sized to take a few seconds per property on 16 cores
+        // the quick tier is fixed work sized to take 5-30 seconds per property on 16 cores
         let tier_scale = if self.quick() {
             match self.property.as_str() {
-                "C01" => 3.0,
-                "C09" | "C17" => 2.0,
-                "C03" | "C10" | "C11" | "C12" | "C14" | "C16" | "C19" => 10.0,
-                _ => 5.0,
+                "C01" => 6.0,
+                "C09" | "C17" => 4.0,
+                "C12" => 20.0,
+                "C03" | "C10" | "C11" | "C14" | "C16" | "C19" => 25.0,
+                "C05" | "C07" => 10.0,
+                _ => 12.0,
             }
         } else {
             // thorough: minutes per property for the generated part (the enumerations and the
